@@ -38,6 +38,11 @@ INPLACE_METHODS = {"convert_to_units", "convert_to_base", "convert_to_cgs", "con
                    "append", "extend", "insert", "remove", "clear", "update", "__setitem__", "__iadd__", "__imul__",
                    "__isub__", "__itruediv__"}
 NP_INPLACE = {"copyto", "put", "place", "putmask", "fill_diagonal", "put_along_axis"}
+NP_UFUNC2 = {"add", "subtract", "multiply", "divide", "true_divide", "floor_divide", "power", "maximum", "minimum", "mod",
+             "remainder", "fmod", "hypot", "arctan2", "copysign", "fmax", "fmin", "heaviside", "logaddexp", "logaddexp2"}
+NP_UFUNC1 = {"negative", "positive", "absolute", "fabs", "sqrt", "square", "cbrt", "reciprocal", "exp", "exp2", "log", "log2",
+             "log10", "expm1", "log1p", "sin", "cos", "tan", "arcsin", "arccos", "arctan", "sinh", "cosh", "tanh", "rint",
+             "floor", "ceil", "trunc", "sign", "conjugate", "deg2rad", "rad2deg"}
 NP_OVERWRITE = {"median", "nanmedian", "percentile", "nanpercentile", "quantile", "nanquantile"}   # overwrite_input=True
 NP_VIEW = {"asarray", "asanyarray", "ascontiguousarray", "asfortranarray", "asarray_chkfinite", "atleast_1d", "atleast_2d",
            "atleast_3d", "array", "squeeze", "reshape", "ravel", "transpose", "swapaxes", "moveaxis", "rollaxis",
@@ -103,8 +108,8 @@ def _collect_callee_names(defs):
 
 
 class Abstractor:
-    def __init__(self, fn, routines):
-        self.fn, self.routines = fn, routines
+    def __init__(self, fn, routines, cls=None):
+        self.fn, self.routines, self.cls = fn, routines, cls
         self.stmts = []
         self.tmp = 0
         # names that are bound to a container built here (dict / list / set display, comprehension, dict() / list() / set()),
@@ -134,6 +139,16 @@ class Abstractor:
         if isinstance(e, ast.Starred):
             return self.srcs(e.value)
         if isinstance(e, ast.Attribute):
+            # a property of the routine's own class read on `self` is a call of its getter
+            if (isinstance(e.value, ast.Name) and e.value.id == "self" and self.cls is not None
+                    and e.attr not in VIEW_ATTRS and e.attr not in FRESH_ATTRS):
+                for c in (self.cls, "unyt_array"):
+                    q = f"{c}.{e.attr}"
+                    if q in self.routines and any(isinstance(d, ast.Name) and d.id == "property" for d in self.routines[q].decorator_list):
+                        self.tmp += 1
+                        ret = f"$t{self.tmp}"
+                        self.stmts.append(("call", f"{q}@{self.tmp}", q, [(_params(self.routines[q])[0], ["self"])], ret))
+                        return [ret]
             if e.attr in FRESH_ATTRS:
                 self.scan(e.value)
                 return []
@@ -205,7 +220,8 @@ class Abstractor:
             if kw.arg == "out":
                 self.write(self.srcs(kw.value), "out=")
         # *args / **kwargs of THIS routine handed on to a NumPy implementation: an `out=` travelling in them is written by NumPy
-        if not (isinstance(f, ast.Name) and f.id in self.routines):
+        if not (isinstance(f, ast.Name) and f.id in self.routines) and not (
+                isinstance(f, ast.Attribute) and isinstance(f.value, ast.Name) and f.value.id == "self"):
             va, ka = self.fn.args.vararg, self.fn.args.kwarg
             for x in e.args:
                 if isinstance(x, ast.Starred) and isinstance(x.value, ast.Name) and va and x.value.id == va.arg:
@@ -214,14 +230,27 @@ class Abstractor:
                 if kw.arg is None and isinstance(kw.value, ast.Name) and ka and kw.value.id == ka.arg:
                     self.write([ka.arg], "**passthrough")
         argsrcs = lambda: self.union(list(e.args) + [kw.value for kw in e.keywords if kw.arg != "out"])  # noqa: E731
-        if isinstance(f, ast.Name):
-            if f.id in self.routines:
-                fn = self.routines[f.id]
+        qual, recv0 = None, None
+        if isinstance(f, ast.Name) and f.id in self.routines:
+            qual = f.id
+        elif (isinstance(f, ast.Attribute) and isinstance(f.value, ast.Name) and f.value.id == "self" and self.cls is not None):
+            for c in (self.cls, "unyt_array"):
+                if f"{c}.{f.attr}" in self.routines:
+                    qual, recv0 = f"{c}.{f.attr}", ["self"]
+                    break
+        if qual is not None:
+            if True:
+                fn = self.routines[qual]
                 ps = _params(fn)
                 a = fn.args
                 npos = len(a.posonlyargs) + len(a.args)
                 binds = {}
+                off = 0
+                if recv0 is not None and ps:
+                    binds[ps[0]] = list(recv0)
+                    off = 1
                 for i, x in enumerate(e.args):
+                    i = i + off
                     if isinstance(x, ast.Starred) or i >= npos:
                         par = a.vararg.arg if a.vararg else None
                     else:
@@ -236,8 +265,9 @@ class Abstractor:
                         binds[par] += [s for s in self.srcs(kw.value) if s not in binds[par]]
                 self.tmp += 1
                 ret = f"$t{self.tmp}"
-                self.stmts.append(("call", f"{f.id}@{self.tmp}", f.id, [(p, s) for p, s in binds.items() if s], ret))
+                self.stmts.append(("call", f"{qual}@{self.tmp}", qual, [(p, s) for p, s in binds.items() if s], ret))
                 return [ret]
+        if isinstance(f, ast.Name):
             if f.id in VIEW_CTORS:
                 return argsrcs()
             if f.id == "getattr" and len(e.args) >= 2 and isinstance(e.args[1], ast.Constant):
@@ -270,6 +300,10 @@ class Abstractor:
                     self.write(self.srcs(e.args[0]), f"np.{name}(overwrite_input)")
                     self.union(list(e.args[1:]) + [kw.value for kw in e.keywords if kw.arg != "out"])
                     return []
+                if name in NP_UFUNC2 and len(e.args) >= 3:
+                    self.write(self.srcs(e.args[2]), f"np.{name}(positional out)")
+                if name in NP_UFUNC1 and len(e.args) >= 2:
+                    self.write(self.srcs(e.args[1]), f"np.{name}(positional out)")
                 if name in NP_INPLACE and e.args:
                     self.write(self.srcs(e.args[0]), f"np.{name}")
                     self.union(list(e.args[1:]) + [kw.value for kw in e.keywords])
@@ -371,6 +405,60 @@ class Abstractor:
             # nested defs, imports, pass, global: nothing
 
 
+def _emit(X, rows, module, doc):
+    def lst(xs):
+        return "[" + ", ".join(X.lstr(x) for x in xs) + "]"
+
+    def stmt(s):
+        if s[0] == "fresh":
+            return f".fresh {X.lstr(s[1])}"
+        if s[0] == "alias":
+            return f".alias {X.lstr(s[1])} {lst(s[2])}"
+        if s[0] == "write":
+            return f".write {X.lstr(s[1])}"
+        return (f".call {X.lstr(s[1])} {X.lstr(s[2])} [" + ", ".join(f"({X.lstr(p)}, {lst(v)})" for p, v in s[3]) + f"] {X.lstr(s[4])}")
+
+    L = [f"-- GENERATED by tools/extract.d/c18_alias.py from /repo/unyt — do not edit",
+         "import UnytModel.AliasFlow", "set_option maxRecDepth 1000000", "", f"namespace Unyt.Generated.{module}", "open Unyt.AliasFlow", ""]
+    names = []
+    for i, (name, ps, stmts) in enumerate(rows):
+        names.append(f"r{i}")
+        L.append(f"def r{i} : Routine := ⟨{X.lstr(name)}, {lst(ps)}, [")
+        L.append(",\n".join("  " + stmt(s) for s in stmts) + "]⟩")
+    L.append("")
+    L.append(f"/-- {doc} -/")
+    L.append("def table : Table := [" + ", ".join(names) + "]")
+    L.append("")
+    L.append(f"end Unyt.Generated.{module}")
+    return "\n".join(L) + "\n"
+
+
+def _array_rows(X):
+    """unyt/array.py: module-level functions + methods of unyt_array / unyt_quantity"""
+    tree = ast.parse(open(os.path.join(X.REPO, "unyt", "array.py"), encoding="utf-8").read())
+    routines, owner = {}, {}
+    for fn in _defs(tree):
+        routines.setdefault(fn.name, fn)
+    for node in tree.body:
+        if isinstance(node, ast.ClassDef) and node.name in ("unyt_array", "unyt_quantity"):
+            for f in node.body:
+                if isinstance(f, ast.FunctionDef):
+                    # property setters / overloads: keep the first def of a name that is not a setter
+                    if any(isinstance(d, ast.Attribute) and d.attr in ("setter", "deleter") for d in f.decorator_list):
+                        continue
+                    q = f"{node.name}.{f.name}"
+                    if q not in routines:
+                        routines[q] = f
+                        owner[q] = node.name
+    _collect_callee_names([])
+    rows = []
+    for q, fn in routines.items():
+        A = Abstractor(fn, routines, owner.get(q))
+        A.body(fn.body)
+        rows.append((q, _params(fn), A.stmts))
+    return rows
+
+
 def generate(X):
     path = os.path.join(X.REPO, "unyt", "_array_functions.py")
     tree = ast.parse(open(path, encoding="utf-8").read())
@@ -401,32 +489,13 @@ def generate(X):
         A.body(fn.body)
         rows.append((name, _params(fn), A.stmts))
 
-    def lst(xs):
-        return "[" + ", ".join(X.lstr(x) for x in xs) + "]"
-
-    def stmt(s):
-        if s[0] == "fresh":
-            return f".fresh {X.lstr(s[1])}"
-        if s[0] == "alias":
-            return f".alias {X.lstr(s[1])} {lst(s[2])}"
-        if s[0] == "write":
-            return f".write {X.lstr(s[1])}"
-        return (f".call {X.lstr(s[1])} {X.lstr(s[2])} [" + ", ".join(f"({X.lstr(p)}, {lst(v)})" for p, v in s[3]) + f"] {X.lstr(s[4])}")
-
-    L = ["-- GENERATED by tools/extract.d/c18_alias.py from /repo/unyt/_array_functions.py — do not edit",
-         "import UnytModel.AliasFlow", "set_option maxRecDepth 1000000", "", "namespace Unyt.Generated.C18Alias", "open Unyt.AliasFlow", ""]
-    names = []
-    for i, (name, ps, stmts) in enumerate(rows):
-        names.append(f"r{i}")
-        L.append(f"def r{i} : Routine := ⟨{X.lstr(name)}, {lst(ps)}, [")
-        L.append(",\n".join("  " + stmt(s) for s in stmts) + "]⟩")
-    L.append("")
-    L.append("/-- every module-level routine of unyt/_array_functions.py -/")
-    L.append("def table : Table := [" + ", ".join(names) + "]")
-    L.append("")
-    L.append("end Unyt.Generated.C18Alias")
-    X.write_if_changed(os.path.join(X.GEN, "C18Alias.lean"), "\n".join(L) + "\n")
-    return {"routines": {name: {"params": ps, "stmts": [list(s[:2]) + [list(map(list, s[3])) if s[0] == "call" else (s[2] if len(s) > 2 else None)] for s in stmts]}
+    text = _emit(X, rows, "C18Alias", "every module-level routine of unyt/_array_functions.py")
+    X.write_if_changed(os.path.join(X.GEN, "C18Alias.lean"), text)
+    arows = _array_rows(X)
+    X.write_if_changed(os.path.join(X.GEN, "C18AliasArray.lean"),
+                       _emit(X, arows, "C18AliasArray", "every module-level function of unyt/array.py and every method of unyt_array / unyt_quantity (qualified `Class.method`, `self` is the first parameter)"))
+    return {"array_routines": {name: ps for name, ps, _ in arows},
+            "routines": {name: {"params": ps, "stmts": [list(s[:2]) + [list(map(list, s[3])) if s[0] == "call" else (s[2] if len(s) > 2 else None)] for s in stmts]}
                          for name, ps, stmts in rows},
             "handlers": handlers,
             "writes_why": {name: [[s[1], s[2]] for s in stmts if s[0] == "write"] for name, _ps, stmts in rows if any(s[0] == "write" for s in stmts)}}
